@@ -155,7 +155,12 @@ func RegoVersionFromVersionsMap(
 	dir := filepath.Dir(filename)
 
 	for versionedDir := range versionsMap {
-		matchingVersionedDir := path.Join("/", versionedDir, "/")
+		// path.Join cleans away the trailing separator: add it back (except for
+		// the root) so that "foo" does not also match a sibling named "foobar"
+		matchingVersionedDir := path.Join("/", versionedDir)
+		if matchingVersionedDir != "/" {
+			matchingVersionedDir += "/"
+		}
 
 		if strings.HasPrefix(dir+"/", matchingVersionedDir) {
 			// >= as the versioned dir might be "" for the project root
